@@ -210,6 +210,8 @@ func (c *ctx) runLines(path string) {
 				in, _ = hex.DecodeString(tok[2])
 			}
 			c.h.opDec(u, in, parseInto(u, tok[3]), true)
+		case "use":
+			c.h.opUse(universe.BySid(sid))
 		case "rt":
 			u := universe.BySid(sid)
 			c.rtOne(u, parseInto(u, tok[2]), parseInto(u, tok[3]))
